@@ -12,6 +12,7 @@ fn digits(num: &Value) -> (String, Option<u128>) {
         }
         "small" => (num["n"].to_string(), Some(num["n"].as_u64().unwrap() as u128)),
         "lz" => (format!("00{}", num["n"]), Some(num["n"].as_u64().unwrap() as u128)),
+        "lzz" => (format!("{}{}", "0".repeat(20), num["n"]), Some(num["n"].as_u64().unwrap() as u128)),
         "sp" => {
             let d = num["n"].to_string();
             (format!("{} {}", &d[..1], &d[1..]), None)
